@@ -445,10 +445,20 @@ func node(g *cur, depth, id int) (res int) {
 	return res
 }
 
+// strayRecover calls recover outside any deferred function, when no panic is in
+// flight: it must return nil whatever earlier evaluations did (an uncaught panic
+// of an earlier plan on the same interpreter is over).
+func strayRecover(g *cur) {
+	if r := recover(); r != nil {
+		g.emit("stray-recover " + Classify(r))
+	}
+}
+
 // Run executes the plan under a top-level recover (what a compiled program's
 // main would see).
 func Run() {
 	g := &cur{end: host.NParams()}
+	strayRecover(g)
 	defer func() {
 		r := recover()
 		g.emit("top " + Classify(r))
@@ -461,6 +471,10 @@ func Run() {
 // come back from Eval as an error.
 func RunRaw() int {
 	g := &cur{end: host.NParams()}
+	if r := recover(); r != nil {
+		// (the same, written in place: the function called by the top-level statement)
+		g.emit("stray-recover " + Classify(r))
+	}
 	res := node(g, 0, 1)
 	g.emit("result " + strconv.Itoa(res))
 	return res
